@@ -11,4 +11,4 @@ out=$(/verif/tools/confirm_seed.sh $wt "$@" 2>&1 | tail -6)
 echo "$out"
 echo "$out" | grep -q "^CONFIRMED" || exit 1
 mkdir -p /verif/seeded/$name && cp -r $wt/seeded_out/* /verif/seeded/$name/
-cd /verif && flock /tmp/try_seed.lock tools/try_seed.sh seeded/$name quick $prop 2>&1 | grep "^SEED" | cut -c1-220
+cd /verif && tools/try_seed_copy.sh seeded/$name quick $prop 2>&1 | grep "^SEED" | cut -c1-220
